@@ -615,9 +615,23 @@ def run_property(prop, tier, seed, make_obs, level_note, assumptions, stubs=None
         if len(set(names)) != len(names):
             raise Broken('duplicate obligation names')
         ctx.log('%d obligations, tier=%s seed=%d jobs=%d' % (len(obs), tier, seed, NCPU))
+        # wall-clock budget: obligations not started inside it are recorded as skipped (never as
+        # discharged).  Default: none for quick, 45 min for thorough; VERIF_BUDGET_S=0 runs everything.
+        budget = float(os.environ.get('VERIF_BUDGET_S', 0 if tier == 'quick' else 2700))
+        ctx.budget_s = budget
+        if budget:
+            obs = budget_order(obs, seed)
+
+        def run_within_budget(ob):
+            if budget and time.time() - ctx.t0 > budget:
+                r = Result()
+                r.status = 'skipped'
+                r.detail = 'not started inside the budget of %ds' % budget
+                return r
+            return ctx.run_ob(ob)
         done = 0
         with concurrent.futures.ThreadPoolExecutor(max_workers=NCPU) as ex:
-            futs = {ex.submit(ctx.run_ob, ob): ob for ob in obs}
+            futs = {ex.submit(run_within_budget, ob): ob for ob in obs}
             for f in concurrent.futures.as_completed(futs):
                 ob = futs[f]
                 try:
@@ -628,7 +642,7 @@ def run_property(prop, tier, seed, make_obs, level_note, assumptions, stubs=None
                     ob.result.detail = 'runner exception: %r' % (e,)
                 done += 1
                 r = ob.result
-                if r.status != 'holds' or done % 25 == 0 or done == len(obs):
+                if r.status not in ('holds', 'skipped') or done % 25 == 0 or done == len(obs):
                     ctx.log('%4d/%d %-12s %s (%.1fs) %s' % (
                         done, len(obs), r.status, ob.name, r.wall_s,
                         (r.detail or '')[:300].replace('\n', ' ')))
@@ -690,6 +704,9 @@ def conclude(ctx, obs, level_note, assumptions, stubs, rule, pre_info, extra_cov
             else:
                 problems.append('ENCODING-MISMATCH %s: counterexample does not reproduce on the real build: %s | %s' % (
                     ob.name, r.failed_props[:2], r.replay_out[-300:].replace('\n', ' ')))
+        elif r.status == 'skipped':
+            # outside the wall-clock budget: stated in the evidence, neither success nor failure
+            pass
         elif r.status == 'holds' or (ob.kfmode and r.status == 'vacuous'):
             # ONLY variants: the listed finding is gone (fixed) or lies
             # outside this obligation's window; nothing to print
@@ -730,7 +747,12 @@ def conclude(ctx, obs, level_note, assumptions, stubs, rule, pre_info, extra_cov
         return 1
     if problems:
         return 2
-    ctx.log('all %d obligations discharged' % len(obs))
+    nskip = len([o for o in obs if o.result.status == 'skipped'])
+    if nskip:
+        ctx.log('%d obligations discharged, %d not started inside the budget of %ds (VERIF_BUDGET_S=0 runs all)' % (
+            len(obs) - nskip, nskip, getattr(ctx, 'budget_s', 0)))
+    else:
+        ctx.log('all %d obligations discharged' % len(obs))
     return 0
 
 
@@ -780,6 +802,10 @@ def write_evidence(ctx, obs, level_note, assumptions, stubs, rule, pre_info, ext
         'problems': problems or [],
         'known_findings_printed': sorted(set(known_lines or [])),
         'exhaustive': False,
+        'budget_s': getattr(ctx, 'budget_s', 0),
+        'skipped_for_budget': len([o for o in obs if o.result and o.result.status == 'skipped']),
+        'skipped_groups': {g: len([o for o in l if o.result and o.result.status == 'skipped'])
+                           for g, l in groups.items() if any(o.result and o.result.status == 'skipped' for o in l)},
     }
     if broken:
         cov['broken'] = broken
@@ -805,6 +831,41 @@ def write_evidence(ctx, obs, level_note, assumptions, stubs, rule, pre_info, ext
     with open(p + '.tmp', 'w') as fh:
         json.dump(ev, fh, indent=1, sort_keys=True)
     os.rename(p + '.tmp', p)
+
+
+def budget_order(obs, seed):
+    """order for budgeted runs: known-finding probes first (their lines must be printed), then round-robin
+    over the groups, each group in an order shuffled deterministically by the seed, so that whatever part
+    fits the budget is spread over all groups and over the whole year range"""
+    import random
+    first, rest, seen = [], [], set()
+    for o in obs:
+        # probes of listed findings go first, so that their KNOWN-FINDING lines are printed: every
+        # region probe (a finding may show in one window only), one whole-obligation probe per key
+        if o.kfmode and o.kfmode[0] == 'ONLY':
+            first.append(o)
+        elif o.kfwhole and o.kfwhole not in seen:
+            seen.add(o.kfwhole)
+            first.append(o)
+        else:
+            rest.append(o)
+    groups = {}
+    for o in rest:
+        groups.setdefault(o.group, []).append(o)
+    for g in sorted(groups):
+        random.Random('%s/%d' % (g, seed)).shuffle(groups[g])
+    out = []
+    lists = [groups[g] for g in sorted(groups)]
+    i = 0
+    while any(lists):
+        for l in lists:
+            if i < len(l):
+                out.append(l[i])
+        i += 1
+        lists = [l for l in lists if i < len(l)] if not any(i < len(l) for l in lists) else lists
+        if not any(i < len(l) for l in lists):
+            break
+    return first + out
 
 
 # ----------------------------------------------------------------------
